@@ -8,7 +8,10 @@ ROOT = os.path.dirname(os.path.dirname(HERE))
 sys.path.insert(0, os.path.join(ROOT, "vc"))
 sys.path.insert(0, os.path.join(ROOT, "units"))
 import rewrite as rw  # noqa: E402
-from gen import Contract, UnitFile  # noqa: E402
+import re  # noqa: E402
+from gen import Contract, UnitFile, Tag  # noqa: E402
+from extract import ExtractError  # noqa: E402
+from slicer import Slicer  # noqa: E402
 import common  # noqa: E402
 
 EV = "src/eval.rs"
@@ -18,12 +21,15 @@ MIN_FUNCTIONS = 2
 ASSUMPTIONS = {
     "Value": "opaque stand-in for values::Value", "clone": "Clone returns an equal value",
     "none": "Value::none() builds some value", "some": "Value::some(v) builds some value",
+    "nondet": "a dropped condition may go either way", "nondet_u8": "a dropped match may take any arm",
     "vv_get_unwrap": "`items.get(i).unwrap()` on an rpds::Vector: panics unless i < len (that is the obligation); returns the element",
 }
 LEMMAS = {}
 UNVERIFIED = {"C02": [
     "rpds::Vector is stood in for by Vec (only len() and get() are used); lengths are assumed to fit in i64",
-    "the other ~120 built-in arms: argument-kind dispatch, string built-ins (String::substring's skip/take arithmetic), file and shell built-ins",
+    "argument-index slices: the catch-all arm of `match receiver_value.as_ref()` in a built-in method arm is taken to be unreachable (eval_method_call looks the method up under the receiver's own runtime type name, so DictItems is entered only with a Dict, and so on); an index that is wrong only on that arm is not reported",
+    "argument-index slices (argidx_*): per arm of the two built-in dispatch functions, only `check_arity(.., N, ..)?` and the literal indexes `arg_values[k]` / `arg_positions[k]` are kept (control flow with nondeterministic conditions); computed indexes are not covered",
+    "the bodies of the other built-in arms: string built-ins (String::substring's skip/take arithmetic), file and shell built-ins",
 ]}
 
 GLUE = """
@@ -46,6 +52,15 @@ pub fn vv_get_unwrap<'a>(v: &'a Vec<Value>, i: usize) -> (r: &'a Value)
 pub open spec fn clamp_int(x: int, lo: int, hi: int) -> int { if x < lo { lo } else if x > hi { hi } else { x } }
 """
 
+IDX_GLUE = """
+#[verifier::external_body]
+pub fn nondet() -> (r: bool) { unimplemented!() }
+#[verifier::external_body]
+pub fn nondet_u8() -> (r: u8) { unimplemented!() }
+/// `arg_values[k]` / `arg_positions[k]` with n arguments: panics unless k < n
+pub fn idx(n: usize, k: usize) requires k < n { }
+"""
+
 EXTREMES = ["0", "1", "-1", "2", "3", "4", "5", "-4", "-5", "9223372036854775807", "-9223372036854775807 - 1"]
 _progs = []
 for a in EXTREMES:
@@ -53,10 +68,120 @@ for a in EXTREMES:
         _progs.append("println(string_repr([10, 11, 12].slice(%s, %s)))" % (a, b))
     _progs.append("println(string_repr([10, 11, 12].get(%s)))" % a)
     _progs.append("println(string_repr([].slice(%s, 0)))" % a)
+_PRELUDES = ["src/__prelude.gdn", "src/__random.gdn", "src/__time.gdn", "src/__reflect.gdn"]
 WITNESSES = [
     {"match": r"indices\.", "kind": "run", "props": ["C02"], "input": "\n".join(_progs) + "\nprintln(\"done\")\n", "timeout": 30,
      "expect": {"stdout_contains": "done"}},
+    {"match": r"argidx_", "kind": "builtin-args", "props": ["C02"], "input": "", "preludes": _PRELUDES, "skip": ["read_line"],
+     "min_inputs": 100, "timeout": 120, "expect": {}},
 ]
+BOUNDED = [
+    {"name": "builtin_argument_calls", "kind": "builtin-args", "props": ["C02"], "input": "", "preludes": _PRELUDES, "skip": ["read_line"],
+     "min_inputs": 100, "n_inputs": 140,
+     "bound": "every built-in declared in src/__prelude.gdn, __random.gdn, __time.gdn and __reflect.gdn called with a wrongly typed value in each argument position, with one argument too few, one too many, and with well-typed arguments (about 150 calls derived from the declarations on each run): none may panic",
+     "expect": {}},
+]
+
+
+class ArgIdxSlicer(Slicer):
+    """per-arm slice: `check_arity(.., N, ..)?` (afterwards exactly N arguments) and every literal index
+    `arg_values[k]` / `arg_positions[k]`; everything else is dropped"""
+
+    def __init__(self, src):
+        Slicer.__init__(self, src, r"check_arity\s*\((?P<args>[^;]*?)\)\s*\?|\barg_(?:values|positions)\[(?P<k>\d+)\]", flag_rx=r"\bno_such_flag_zz\b")
+        self.n_arity = 0
+        self.n_dropped = 0
+
+    def drop_arm(self, scrutinee, pattern):
+        # assumption indices.argidx.receiver_variant (see ASSUMPTIONS): a built-in method arm is only
+        # entered with a receiver of the method's own type, so the catch-all arm of the match on the
+        # receiver's variant is not followed
+        if re.sub(r"\s+", "", scrutinee) == "receiver_value.as_ref()" and pattern.strip() == "_":
+            self.n_dropped += 1
+            return True
+        return False
+
+    def render_effect(self, m):
+        if m.group("k") is not None:
+            return "idx(n, %s);" % m.group("k")
+        parts = rw._split_args(m.group("args"))
+        self.n_arity += 1
+        if len(parts) >= 4 and re.fullmatch(r"\d+", parts[3].strip()):
+            return "if n != %s { return Err(()); }" % parts[3].strip()
+        return "if nondet() { return Err(()); }"
+
+
+def add_arg_index_slices(u, props):
+    """one slice per arm of the two built-in dispatch functions (same arm discovery as unit sandbox)"""
+    src = u.source(EV)
+    n_arms = n_idx = 0
+    for hname, short in (("eval_built_in_call", "fn"), ("eval_built_in_method_call", "meth")):
+        host = src.find_fn(hname)
+        sl = ArgIdxSlicer(src)
+        toks = src.toks
+        idx = [k for k, t in enumerate(toks) if host.start <= t.start < host.end]
+        mk = None
+        for k in idx:
+            if toks[k].text == "match" and toks[k + 1].text == "kind" and toks[k + 2].text == "{":
+                mk = k
+                break
+        if mk is None:
+            raise ExtractError("`match kind {` not found in %s" % hname)
+        close = sl.close(mk + 2)
+        u.items.append({"name": hname, "generated_as": "argidx_%s_*" % short, "kind": "slice", "where": host.where, "sha256_16": host.sha(), "skeleton": ""})
+        j = mk + 3
+        seen = {}
+        while j < close:
+            m = j
+            arrow = None
+            while m < close:
+                t = toks[m]
+                if t.kind == "punct" and t.text in "([{":
+                    m = sl.close(m) + 1
+                    continue
+                if t.text == "=" and toks[m + 1].text == ">" and toks[m + 1].start == t.end:
+                    arrow = m
+                    break
+                m += 1
+            if arrow is None:
+                break
+            pat = src.text[toks[j].start:toks[arrow - 1].end]
+            names = re.findall(r"Kind::(\w+)", pat) or ["other"]
+            bs = arrow + 2
+            if toks[bs].text == "{":
+                be = sl.close(bs)
+                a2, b2 = bs + 1, be
+                j = be + 1
+            else:
+                e = sl.find0(bs, close, lambda x: x.text == ",")
+                e = close if e is None else e
+                a2, b2 = bs, e
+                j = e
+            if j < close and toks[j].text == ",":
+                j += 1
+            name = "_".join(names)[:60]
+            seen[name] = seen.get(name, 0) + 1
+            gname = "argidx_%s_%s" % (short, name) + ("_%d" % seen[name] if seen[name] > 1 else "")
+            sl.out = []
+            before = sl.n_effects
+            sl.block(a2, b2, "    ")
+            if sl.n_effects == before:
+                continue          # no literal index and no arity check in this arm
+            line0 = src.line_of(toks[arrow].start)
+            u.fn_props[gname] = props
+            u.safety_props[gname] = props
+            tag0 = Tag("repo", fn=gname, repo_file=EV, repo_line=line0, props=props)
+            u.emit("#[verifier::exec_allows_no_decreases_clause]\npub fn %s(n: usize) -> (r: Result<(), ()>)\n{" % gname, tag0)
+            for (text, ln) in sl.out:
+                # the arity fact established before a loop must be visible inside it
+                text = re.sub(r"^(\s*)(while|loop)\b", r"\1#[verifier::loop_isolation(false)] \2", text)
+                u.emit(text, Tag("repo", fn=gname, repo_file=EV, repo_line=ln, props=props))
+            u.emit("    Ok(())\n}", tag0)
+            n_arms += 1
+        n_idx += sl.n_effects
+    if n_arms < 60:
+        raise ExtractError("only %d built-in arms with argument indexing found" % n_arms)
+    u.clauses.append(("indices.argidx.every_literal_argument_index_is_below_the_checked_arity", props, "%d arms" % n_arms))
 
 
 def build(tier):
@@ -81,6 +206,8 @@ def build(tier):
         suffix="\n    v",
         rules=[rw.simple("R13", r"(\w+)\.get\(([^()]*)\)\.unwrap\(\)", r"vv_get_unwrap(\1, \2)")],
         contract=Contract(requires=[("len_fits", "%s <= i64::MAX" % LEN)], props=c02))
+    u.raw(IDX_GLUE, kind="prelude")
+    add_arg_index_slices(u, c02)
     u.add_canary_proof()
     u.raw(common.FOOTER)
     return u
